@@ -159,8 +159,8 @@ func start1(o StartOpts) (*Session, error) {
 	}
 	args := append([]string{}, o.Args...)
 	if !o.NoListen {
-		s.Port = freePort()
-		args = append(args, "--listen", fmt.Sprintf("127.0.0.1:%d", s.Port))
+		// fzf picks a free port itself; the harness finds it through /proc (no probing races)
+		args = append(args, "--listen", "127.0.0.1:0")
 	}
 	var words []string
 	for _, a := range args {
@@ -219,13 +219,13 @@ func start1(o StartOpts) (*Session, error) {
 	if !o.NoListen {
 		deadline := time.Now().Add(30 * time.Second)
 		for {
-			if _, err := s.Get(0); err == nil {
-				// make sure it is our instance that answers: ours would have exited at once had it lost the port
-				time.Sleep(30 * time.Millisecond)
-				if _, ok := s.ExitCode(); ok {
-					return s, fmt.Errorf("fzf exited during start-up: %s", s.Stderr())
+			if s.Port == 0 {
+				s.Port = s.listenPort()
+			}
+			if s.Port != 0 {
+				if _, err := s.Get(0); err == nil {
+					break
 				}
-				break
 			}
 			if _, ok := s.ExitCode(); ok {
 				return s, fmt.Errorf("fzf exited during start-up: %s", s.Stderr())
@@ -237,6 +237,42 @@ func start1(o StartOpts) (*Session, error) {
 		}
 	}
 	return s, nil
+}
+
+// listenPort finds the TCP port the session's fzf process listens on.
+func (s *Session) listenPort() int {
+	pid := s.FzfPid()
+	if pid == 0 {
+		return 0
+	}
+	inodes := map[string]bool{}
+	fds, _ := os.ReadDir(fmt.Sprintf("/proc/%d/fd", pid))
+	for _, fd := range fds {
+		if l, err := os.Readlink(fmt.Sprintf("/proc/%d/fd/%s", pid, fd.Name())); err == nil && strings.HasPrefix(l, "socket:[") {
+			inodes[strings.TrimSuffix(strings.TrimPrefix(l, "socket:["), "]")] = true
+		}
+	}
+	if len(inodes) == 0 {
+		return 0
+	}
+	for _, f := range []string{"/proc/net/tcp", "/proc/net/tcp6"} {
+		data, err := os.ReadFile(f)
+		if err != nil {
+			continue
+		}
+		for _, line := range strings.Split(string(data), "\n")[1:] {
+			fl := strings.Fields(line)
+			if len(fl) < 10 || fl[3] != "0A" || !inodes[fl[9]] {
+				continue
+			}
+			if i := strings.LastIndex(fl[1], ":"); i >= 0 {
+				if p, err := strconv.ParseInt(fl[1][i+1:], 16, 32); err == nil {
+					return int(p)
+				}
+			}
+		}
+	}
+	return 0
 }
 
 // ---- HTTP
